@@ -19,6 +19,7 @@ func c09Program(rng *rand.Rand) string {
 	w("x1 := 1\nx2 := 2\nb1 := false\nb2 := true\ns1 := \"p\"\ns2 := \"q\"")
 	w("an := [10 20 30]\nab := [false true]\nas := [\"u\" \"v\"]\nmn := {a:1 b:2}\nmb := {a:true}\nnn := [[1 2] [3]]")
 	w("w1:any\nw2:any\nw1 = 5\nw2 = an")
+	w("mixa := [[1] \"tag\"]\nmixm := [{name:\"c\" items:[0]}]")
 	w("func setp p:num q:[]num\n    p = 99\n    q[0] = 77\nend")
 	w("func idn:num p:num\n    return p\nend")
 	w("func ide:bool\n    return err\nend")
@@ -43,6 +44,11 @@ func c09Program(rng *rand.Rand) string {
 		func() { w("for e := range ab\n    b1 = e\nend") },
 		func() { w("if x1 > 0\n    t := x1\n    x1 = 0\n    x2 = t\nend") },
 		func() { w("print x1 x2 b1 b2 s1 s2 err errmsg") },
+		// the err/errmsg cells are read as strings/bools in place (indexing, slicing, ranging) between updates
+		func() {
+			w("if (len errmsg) > 3\n    print errmsg[0] errmsg[-1] errmsg[1:3] errmsg[:2]\nend\nfor c := range errmsg\n    s1 = c\nend")
+		},
+		func() { w("print (len errmsg) (errmsg == \"\") (errmsg + \"!\") (err == false) (!err)") },
 	}
 	// fresh aliases created by declaration in the middle
 	nd := 0
@@ -52,6 +58,21 @@ func c09Program(rng *rand.Rand) string {
 		func() { nd++; w("ds%d := errmsg", nd); w("print ds%d", nd) }, func() { nd++; w("dw%d := w2", nd); w("print dw%d", nd) },
 		func() { nd++; w("dl%d := [x1 x2]", nd); w("dl%d[0] = 5", nd) }, func() { nd++; w("dk%d := {k:err}", nd); w("print dk%d", nd) },
 		func() { nd++; w("dy%d := [err]", nd); w("print dy%d", nd) }, func() { nd++; w("dz%d := nn[0]", nd); w("dz%d[0] = %d", nd, rng.Intn(9)) },
+		// repetition of any-held composites, then an update through one copy
+		func() {
+			nd++
+			w("ra%[1]d := mixa * 2\nta%[1]d := ra%[1]d[0].([]num)\nta%[1]d[0] = %[2]d\nprint ra%[1]d mixa", nd, rng.Intn(9))
+		},
+		func() {
+			nd++
+			w("mixa = mixa * 2\ntb%[1]d := mixa[2].([]num)\ntb%[1]d[0] = %[2]d\nprint mixa", nd, rng.Intn(9))
+		},
+		func() {
+			nd++
+			w("rm%[1]d := mixm * 2\ntm%[1]d := rm%[1]d[0].items.([]num)\ntm%[1]d[0] = %[2]d\nprint rm%[1]d mixm", nd, rng.Intn(9))
+		},
+		func() { nd++; w("rn%[1]d := [nn] * 2\nrn%[1]d[0][0][0] = %[2]d\nprint rn%[1]d nn", nd, rng.Intn(9)) },
+		func() { nd++; w("rw%[1]d := [w2 w1] * 2\nprint rw%[1]d", nd) },
 	}
 	n := 4 + rng.Intn(10)
 	for i := 0; i < n; i++ {
@@ -61,7 +82,7 @@ func c09Program(rng *rand.Rand) string {
 			ops[rng.Intn(len(ops))]()
 		}
 	}
-	w("print x1 x2 b1 b2 s1 s2 an ab as mn mb nn w1 w2 err errmsg")
+	w("print x1 x2 b1 b2 s1 s2 an ab as mn mb nn w1 w2 mixa mixm err errmsg")
 	return b.String()
 }
 
